@@ -122,13 +122,13 @@ class DOMParser:
                 # comments and processing instructions have no tag name; their
                 # text is not content (a tail is, and is handled below)
                 d.text = None
-            if d.text is not None and d.text.strip() and d.tag.lower() != "lxmltext":
+            if d.text and d.tag.lower() != "lxmltext":
                 child = lxml.html.Element("lxmltext")
                 child.text = d.text
                 d.insert(0, child)
                 d.text = None
 
-            if d.tail is not None and d.tail.strip():
+            if d.tail:
                 parent = d.getparent()
                 child = lxml.html.Element("lxmltext")
                 child.text = d.tail
